@@ -127,6 +127,12 @@ def cli_lines(path, colour):
     return p.stdout.decode('utf-8', 'replace'), p.stderr.decode('utf-8', 'replace'), p.returncode
 
 
+def cli_lines_enc(path, enc):
+    env = dict(os.environ, PYTHONPATH=common.REPO, TERM='xterm', PYTHONIOENCODING=enc)
+    p = subprocess.run([common.PY, os.path.join(common.REPO, 'i18nspector'), path], env=env, stdout=subprocess.PIPE, stderr=subprocess.PIPE, timeout=60)
+    return p.stdout.decode(enc, 'replace'), p.stderr.decode('utf-8', 'replace'), p.returncode
+
+
 def check(ctx):
     build = common.coq_build()
     aud = common.audit(ctx.id, coqchk=not ctx.quick())
@@ -192,6 +198,15 @@ def check(ctx):
         cat, used = pogen.hostile_catalog(rng)
         ext = rng.choice(['po', 'po', 'po', 'pot'])
         payloads.append((i, pogen.render(cat), ext))
+    # syntactically broken PO text whose error message (produced by polib) quotes file text
+    nraw = 150 if ctx.quick() else 3000
+    for i in range(nraw):
+        t = pogen.hostile(rng).replace('\n', ' ') or 'x'
+        shape = rng.randrange(6)
+        body = ['#, fuzzy\n#| %s "a"\nmsgid "b"\nmsgstr "c"\n' % t, '%s "a"\nmsgstr "c"\n' % t, 'msgid "a" %s\nmsgstr "c"\n' % t,
+                'msgid "a"\nmsgstr[%s] "c"\n' % t, 'msgid "a"\n%s\nmsgstr "c"\n' % t, '#~ %s "a"\n' % t][shape]
+        text = 'msgid ""\nmsgstr ""\n"Content-Type: text/plain; charset=UTF-8\\n"\n\n' + body
+        payloads.append((ncat + i, text, 'po'))
     shutil.rmtree(os.path.join(common.WORK, 'c02'), ignore_errors=True)
     results = common.pmap('harness.c02', 'run_catalog', payloads, per_case_timeout=120)
     lines_req = []
@@ -252,7 +267,15 @@ def check(ctx):
                 next(((a, b) for a, b in zip(stripped + [None] * 99, exp + [None] * 99) if a != b), None),))
         elif not any('\x1b[' in x for x in cgot):
             ctx.count('cli_colour_runs_without_sgr')
-        ctx.evaluations += 2
+        # stdout that cannot represent every character (a pipe with an ASCII / Latin-1 locale): still one line per problem, rc 0
+        for enc in ('ascii', 'latin-1'):
+            o2, e2, rc2 = cli_lines_enc(r['path'], enc)
+            want2 = [l.encode(enc, 'backslashreplace').decode(enc) for l in exp]
+            got2 = o2.split('\n')[:-1] if o2.endswith('\n') else o2.split('\n')
+            if rc2 != 0 or e2 or got2 != want2:
+                ctx.fail('cli-stdout-encoding', {'catalog': text[:2000], 'stdout_encoding': enc},
+                         'with a %s stdout: rc=%d stderr=%r, %d lines for %d problems' % (enc, rc2, e2[-200:], len(got2), len(exp)))
+        ctx.evaluations += 4
     ctx.count('cli_runs', done)
     shutil.rmtree(os.path.join(common.WORK, 'c02'), ignore_errors=True)
     ctx.samples = [{'escape': [k, repr(v)]} for (k, v) in cases[::max(1, len(cases) // 5)]][:5] + \
